@@ -1286,13 +1286,19 @@ class ProcessPoolExecutor(Executor):
     def _ensure_executor_running(self):
         """ensures all workers and management thread are running"""
         with self._processes_management_lock:
-            if len(self._processes) != self._max_workers:
-                self._adjust_process_count()
-                # The executor manager thread only watches the sentinels of
-                # the workers it knew when it last woke up: wake it up so
-                # that the death of a worker spawned here is also noticed.
-                self._executor_manager_thread_wakeup.wakeup()
-            self._start_executor_manager_thread()
+            try:
+                if len(self._processes) != self._max_workers:
+                    self._adjust_process_count()
+                    # The executor manager thread only watches the sentinels
+                    # of the workers it knew when it last woke up: wake it up
+                    # so that the death of a worker spawned here is also
+                    # noticed.
+                    self._executor_manager_thread_wakeup.wakeup()
+            finally:
+                # Also when spawning some of the workers failed: the ones
+                # already started need the executor manager thread to be
+                # watched and shut down.
+                self._start_executor_manager_thread()
 
     def submit(self, fn, *args, **kwargs):
         with self._flags.shutdown_lock:
